@@ -9,6 +9,7 @@ import (
 	"errors"
 	"fmt"
 	"runtime"
+	"sort"
 	"strings"
 	"time"
 
@@ -230,6 +231,7 @@ type Machine struct {
 	warnMark     int
 	Bare         bool
 	before       []uint8 // bare mode: memory image before the Step
+	beforeMap    map[uint16]uint8
 }
 
 func b2i(b bool) int {
@@ -408,23 +410,74 @@ func EmitInit(w *bufio.Writer, is *InitSpec) {
 }
 
 // StepAndEmit runs one real CPU.Step and writes the step event.
-// snapshotMem / bareDiff: in bare mode the memory diff is computed from full images.
+// snapshotMem / bareDiff: in bare mode the memory diff is computed from copies of the contents.
 func (m *Machine) snapshotMem() {
-	if m.before == nil {
-		m.before = make([]uint8, 65536)
-	}
-	for a := 0; a < 65536; a++ {
-		m.before[a] = m.Mem.Inner.Get(uint16(a))
+	switch src := m.Mem.Inner.(type) {
+	case z80.DumbMemory:
+		if len(m.before) != len(src) {
+			m.before = make([]uint8, len(src))
+		}
+		copy(m.before, src)
+	case z80.MapMemory:
+		m.beforeMap = map[uint16]uint8{}
+		for k, v := range src {
+			m.beforeMap[k] = v
+		}
+	case *LazyMem:
+		m.beforeMap = map[uint16]uint8{}
+		for k, v := range src.ov {
+			m.beforeMap[k] = v
+		}
+	default:
+		if len(m.before) != 65536 {
+			m.before = make([]uint8, 65536)
+		}
+		for a := 0; a < 65536; a++ {
+			m.before[a] = m.Mem.Inner.Get(uint16(a))
+		}
 	}
 }
 
 func (m *Machine) bareDiff() [][2]int {
 	var out [][2]int
-	for a := 0; a < 65536; a++ {
-		if v := m.Mem.Inner.Get(uint16(a)); v != m.before[a] {
-			out = append(out, [2]int{a, int(v)})
+	switch src := m.Mem.Inner.(type) {
+	case z80.DumbMemory:
+		for a := range src {
+			if src[a] != m.before[a] {
+				out = append(out, [2]int{a, int(src[a])})
+			}
+		}
+	case z80.MapMemory:
+		seen := map[uint16]bool{}
+		for k, v := range src {
+			seen[k] = true
+			if old, ok := m.beforeMap[k]; !ok && v != 0xc7 || ok && old != v {
+				out = append(out, [2]int{int(k), int(v)})
+			}
+		}
+		for k, old := range m.beforeMap {
+			if !seen[k] && old != 0xc7 {
+				out = append(out, [2]int{int(k), 0xc7})
+			}
+		}
+	case *LazyMem:
+		for k, v := range src.ov {
+			old, ok := m.beforeMap[k]
+			if !ok {
+				old = (&LazyMem{seed: src.seed, val: src.val}).Get(k)
+			}
+			if old != v {
+				out = append(out, [2]int{int(k), int(v)})
+			}
+		}
+	default:
+		for a := 0; a < 65536; a++ {
+			if v := m.Mem.Inner.Get(uint16(a)); v != m.before[a] {
+				out = append(out, [2]int{a, int(v)})
+			}
 		}
 	}
+	sort.Slice(out, func(i, j int) bool { return out[i][0] < out[j][0] })
 	return out
 }
 
